@@ -409,27 +409,35 @@ func (r *reporter) AllocateHistogram(
 				durationUpperBound: pair.UpperBoundDuration(),
 				metric:             &counter,
 			}
-			delta = len(r.bucketIDTagName) + len(r.bucketTagName) + len(hbucket.bucketID)
 		)
 
 		hbucket.metric.metric.Tags = mtags
-		hbucket.metric.size = r.calculateSize(hbucket.metric.metric)
 
 		if isDuration {
-			bname := r.stringInterner.Intern(
+			hbucket.bucket = r.stringInterner.Intern(
 				r.durationBucketString(prevDuration) + "-" +
 					r.durationBucketString(pair.UpperBoundDuration()),
 			)
-			hbucket.bucket = bname
-			hbucket.metric.size += int32(delta + len(bname))
-			cachedDurationBuckets = append(cachedDurationBuckets, hbucket)
 		} else {
-			bname := r.stringInterner.Intern(
+			hbucket.bucket = r.stringInterner.Intern(
 				r.valueBucketString(prevValue) + "-" +
 					r.valueBucketString(pair.UpperBoundValue()),
 			)
-			hbucket.bucket = bname
-			hbucket.metric.size += int32(delta + len(bname))
+		}
+
+		// n.b. The metric is sent with the two bucket tags attached (see
+		//      process()): size it that way, the framing of those tags (and of
+		//      the tag list, if the metric has no other tags) counts too.
+		sized := hbucket.metric.metric
+		sized.Tags = append(append(make([]m3thrift.MetricTag, 0, len(mtags)+2), mtags...),
+			m3thrift.MetricTag{Name: r.bucketIDTagName, Value: hbucket.bucketID},
+			m3thrift.MetricTag{Name: r.bucketTagName, Value: hbucket.bucket},
+		)
+		hbucket.metric.size = r.calculateSize(sized)
+
+		if isDuration {
+			cachedDurationBuckets = append(cachedDurationBuckets, hbucket)
+		} else {
 			cachedValueBuckets = append(cachedValueBuckets, hbucket)
 		}
 
